@@ -399,6 +399,10 @@ def last_ident(ty):
     """last path identifier of a type, ignoring refs and generics"""
     t = ty.strip()
     t = re.sub(r"^(&(?:'[a-z_]+ )?(?:mut )?)+", "", t)
+    if t.startswith("(") and t.endswith(")") and len(t) > 2:
+        # tuple type: normalise every component, so `(a::X, Vec<u8>)` and `(X, Vec<u8>)` agree
+        from .mirparse import split_top
+        return "(" + ", ".join(last_ident(p) for p in split_top(t[1:-1]) if p.strip()) + ")"
     t = strip_generics(t)
     t = t.split("::")[-1]
     return t.strip()
@@ -1222,6 +1226,29 @@ class Engine:
             return Agg("tuple", "tuple", [Cell(self.eval_const(frame, p[6:] if p.startswith("const ") else p)) for p in parts])
         if t.startswith("{") and t.endswith("}"):
             return self.zero_sized(frame, t)
+        # value expressions  Path::Variant(a, b) / Struct(a, b)  (e.g. `Result::<Infallible, E>::Err(E(()))`)
+        if t.endswith(")") and "(" in t and not t.startswith("<"):
+            depth = 0
+            cut = None
+            for i in range(len(t) - 1, -1, -1):
+                ch = t[i]
+                if ch == ")":
+                    depth += 1
+                elif ch == "(":
+                    depth -= 1
+                    if depth == 0:
+                        cut = i
+                        break
+            head = t[:cut] if cut else ""
+            if cut and re.fullmatch(r"[\w:<>, '&\[\];]+", head) and not head.endswith(">"):
+                inner = t[cut + 1:-1]
+                parts = split_top(inner) if inner.strip() else []
+                vals = [Cell(self.eval_const(frame, q[6:] if q.startswith("const ") else q)) for q in parts]
+                hname = strip_generics(head)
+                ev = self.program.is_enum_variant_path(hname, frame.fn.crate if frame is not None else None)
+                if ev:
+                    return EnumV(ev[0], ev[1], ev[2], vals)
+                return Agg("struct", hname.split("::")[-1], vals)
         # typed constant  `const <expr>: Type` handled above; named constants:
         name = strip_generics(t)
         # enum unit variants printed as constants
